@@ -17,6 +17,7 @@ def run(rep, prog, tier):
     r1(rep, prog)
     r2(rep, prog)
     r4(rep, prog)
+    r5(rep, prog)
     tab = ct.const_int_array(prog, "tantivy::fieldnorm::code::FIELD_NORMS_TABLE")
     rep.check(tab is not None and len(tab) == 256 and all(tab[i] > tab[i - 1] for i in range(1, 256)) and tab[0] == 0, "C12-R3", "FIELD_NORMS_TABLE is a strictly increasing 256-entry table", "quantisation is order preserving", "FIELD_NORMS_TABLE is not a strictly increasing 256-entry table starting at 0")
 
@@ -71,6 +72,42 @@ def r4(rep, prog):
                 same = wrecv == frecv and wrecv[0] in ("param", "local")
         rep.check(same, R, "block_wand_intersection: the leader's weight meets the leader's fieldnorm", "bm25_weight() and fieldnorm_reader() are taken from the same scorer",
                   "in block_wand_intersection the Bm25Weight and the fieldnorm id given to score() do not provably come from the same scorer: a clause can be normalised with another field's length", site=site(b, bi))
+
+
+def r5(rep, prog):
+    """specialised scoring paths that hard-code the sum of the clause scores (block-WAND) may only
+    replace the generic scorer when the weight's score combiner is the sum"""
+    R = "C12-R5"
+    rep.rule(R, "score-combiner agreement: in every method of impl Weight for BooleanWeight<TScoreCombiner>, a call to block_wand / block_wand_intersection (which add the clause scores) is dominated by a guard computed from the combiner type parameter (e.g. TypeId::of::<TScoreCombiner>() == TypeId::of::<SumCombiner>()); otherwise a disjunction-max query is scored as a sum by TopDocs while scorer()/explain() use max + tie-breaker")
+    BW = ("tantivy::query::boolean_query::block_wand::block_wand", "tantivy::query::boolean_query::block_wand_union::block_wand", "tantivy::query::boolean_query::block_wand_intersection::block_wand_intersection")
+    names = prog.names(r"^tantivy::query::boolean_query::(block_wand(_union)?::block_wand(_single_scorer)?|block_wand_intersection::block_wand_intersection)$")
+    sites_ = [(b, bi, t) for (b, bi, t) in prog.who_calls(names) if "BooleanWeight" in b.id]
+    rep.floor(R, "block-WAND call sites in BooleanWeight", len(sites_), 2)
+    for body, bi, t in sites_:
+        dom = body.dominators().get(bi, set())
+        guarded = False
+        for d in dom:
+            tt = body.term(d)
+            if tt["k"] != "switch" or op_local(tt["on"]) is None:
+                continue
+            lv = provenance(body, op_local(tt["on"]), extra_transparent=tuple(prog.names(r"PartialEq::eq$|TypeId as core::cmp::PartialEq>::eq$")))
+            for l in lv:
+                if l[0] != "call":
+                    continue
+                ct = body.term(l[2])
+                # the guard's source is a call instantiated with the combiner type parameter
+                for g in ct.get("ga", []):
+                    row = body.types[g]
+                    if row["k"] == "param" and "Combiner" in row["s"]:
+                        # the call must be unreachable from the arm on which the guard is false
+                        arms = dict((v, tg) for v, tg in tt["vals"])
+                        false_t = arms.get("0")
+                        if false_t is not None and bi not in body.reachable((false_t,), blocked=frozenset({d})):
+                            guarded = True
+        rep.check(guarded, R, "%s: %s only when the combiner is the sum" % (short(body.id).split("::")[-1], t.get("f", "").split("::")[-1]),
+                  "dominated by a guard derived from the TScoreCombiner type parameter",
+                  "`%s` calls %s, which sums the clause scores, without checking that the weight's score combiner is the sum: with another combiner (DisjunctionMaxQuery) TopDocs ranks and reports "
+                  "sum scores while scorer() and explain() report max + tie-breaker" % (body.id, t.get("f", "")), site=site(body, bi))
 
 
 def r1(rep, prog):
